@@ -100,7 +100,7 @@ def _l1_accounting(si: int, nm: int, rejects: bool, c0: int, b0: bool, i0: bool,
     """
     pre: 0 <= si < 29
     pre: 1 <= nm <= 2
-    pre: 0 <= c0 <= 3
+    pre: 0 <= c0 <= 5
     pre: 1 <= n <= 2
     post: _
     """
@@ -232,7 +232,7 @@ PROPERTY = dict(
     functions=['demultiplexingStrategyLoader.DemultiplexingStrategyLoader.demultiplex (loop, reject path, fallback reject writer, counters)',
                'every registered strategy demultiplex (%d)' % len(NAMES), 'IlluminaBaseDemultiplexer.demultiplex', 'TaggedRecord.asFastq',
                'fastqHandle.FastqHandle.__init__/write/close', 'fastqIterator.FastqIterator.__next__/_readFastqRecord'],
-    bounds=dict(pairs='1..2 pairs (3 in the header/maxReadPairs lemma)', content='first pair from a pool of 4 (full length, shorter than the prefix, empty, N-rich)',
+    bounds=dict(pairs='1..2 pairs (3 in the header/maxReadPairs lemma)', content='first pair from a pool of 6 (full length, shorter than the prefix, empty, N-rich, full mate 1 with empty mate 2, full mate 1 with primer-length mate 2)',
                 verdicts='barcode / sequencing-index / base-demultiplexer-index verdicts symbolic per pair', modes='paired and single end, rejects on/off, one-file-per-cell output incl. stale files of an earlier run, 3 header styles, maxReadPairs None/1..3',
                 strategies='each of the %d registered strategies' % len(NAMES)),
     outside=['gzip itself', 'library auto-detection (detectLibYields)', 'cluster submission branch of demux.py', 'headers longer than 255 characters (C04-L3)',
